@@ -77,7 +77,24 @@ def run_job(job):
     except Exception as e:  # an extractor crash is a tool failure too
         job.error = 'extraction crashed: %r' % e
         return job
-    job.res = verus.run(job.gen.path, rlimit=job.rlimit, threads=job.threads)
+    from . import extract as _ex
+    for attempt in range(4):
+        job.res = verus.run(job.gen.path, rlimit=job.rlimit, threads=job.threads)
+        # containment of hints that no longer compile against a rewritten body: make that function external and retry
+        bad = set()
+        for d in job.res.diags:
+            if d.kind() == 'compile' and d.primary_line:
+                f = job.gen.fn_at(d.primary_line)
+                if f and f.get('contract') and not f.get('external') and f['key'] not in _ex.FORCE_EXTERNAL:
+                    bad.add(f['key'])
+        if not bad or attempt == 3:
+            break
+        _ex.FORCE_EXTERNAL |= bad
+        try:
+            job.gen = job.builder(job.cfg, job.n, GEN)
+        except (ExtractError, SidecarError, SeqError, ScanError) as e:
+            job.error = 'extraction: %s' % e
+            return job
     return job
 
 
@@ -85,6 +102,8 @@ def scan_trusted(gen):
     """Every assumption-introducing construct in the generated file, as (kind, normalised text)."""
     found = []
     for i, line in enumerate(gen.text.split('\n')):
+        if 'UNDECIDED-FN' in line:
+            continue
         code = line.split('//')[0]
         for kind, rx in TRUSTED_PATTERNS:
             if rx.search(code):
@@ -247,6 +266,14 @@ def decide(prop, tier, seed, jobs, meta, extra_results=None):
         smt_ms += res.smt_ms
         for k, v in gen.log.rules.items():
             rules[k] = rules.get(k, 0) + v
+        for fk, reason in gen.log.undecided.items():
+            fprops = []
+            for f in gen.fns:
+                if f['key'] == fk:
+                    fprops = f.get('props', [])
+            if prop in fprops or meta.get('all_props'):
+                tool_problems.append('%s: function %s could not be put under its contract (%s); its contract is only ASSUMED in this run'
+                                     % (job.name, fk, reason))
         extra, seen = check_trusted(gen)
         trusted_seen |= seen
         if extra:
